@@ -760,6 +760,28 @@ func semSession(p semProg, opts ugo.CompilerOptions, src string) (obs string, co
 			}
 		}
 	}
+	// a session in which the script itself declared variables with those names before the host disabled them: a source
+	// module imported afterwards has a scope of its own, the names mean the builtins there and must be refused
+	if len(p.Disabled) > 0 {
+		var decl, uses []string
+		for _, d := range p.Disabled {
+			decl = append(decl, d.(string)+" := 0")
+			uses = append(uses, d.(string))
+		}
+		mm := ugo.NewModuleMap()
+		mm.AddSourceModule("mz", []byte("return ["+strings.Join(uses, ", ")+"]"))
+		st := ugo.NewSymbolTable()
+		ev2 := ugo.NewEval(ugo.CompilerOptions{NoOptimize: opts.NoOptimize, OptimizerLimit: opts.OptimizerLimit, SymbolTable: st, ModuleMap: mm}, ugo.Map{})
+		if _, _, err := ev2.Run(context.Background(), []byte(strings.Join(decl, "\n"))); err != nil {
+			return "SESSION: declaring variables named like builtins failed: " + err.Error(), nil, nil
+		}
+		for _, d := range p.Disabled {
+			st.DisableBuiltin(d.(string))
+		}
+		if _, bc, _ := ev2.Run(context.Background(), []byte("return import(\"mz\")")); bc != nil {
+			return fmt.Sprintf("SESSION: a module using %v compiled although the names were disabled (the session's script had declared variables of those names before)", uses), nil, nil
+		}
+	}
 	ev := ugo.NewEval(opts, g, args...)
 	for round := 0; round < 2; round++ {
 		for _, d := range p.Disabled {
